@@ -433,7 +433,15 @@ impl State {
                 let idx = match numbers::get_highest_index(&self.config.file_spec) {
                     None => 0,
                     Some(idx) => {
-                        if self.config.append {
+                        // appending is only possible if the newest file exists as plain file;
+                        // if there is only its compressed form, it must be left untouched
+                        if self.config.append
+                            && self
+                                .config
+                                .file_spec
+                                .as_pathbuf(Some(&numbers::number_infix(idx)))
+                                .is_file()
+                        {
                             idx
                         } else {
                             numbers::next_index(idx)?
